@@ -240,6 +240,7 @@ func c04Analyze(r *vfPair, c c04Case, resumed bool, prev *c04Conv, ccache, scach
 		recs   []vfWRec
 		client bool
 		app    []byte
+		hs     []byte
 		fin    []byte
 		n      int
 	}
@@ -296,16 +297,18 @@ func c04Analyze(r *vfPair, c c04Case, resumed bool, prev *c04Conv, ccache, scach
 			d.n++
 			switch rec.Typ {
 			case 22:
-				for _, m := range vfHSMessages(pt) {
-					if m.Typ == hsFinished {
-						d.fin = m.Raw
-					}
-				}
+				// a protected handshake message may span several records (tiny path MTU): collect first
+				d.hs = append(d.hs, pt...)
 			case 23:
 				d.app = append(d.app, pt...)
 			case 21:
 			default:
 				return nil, "record-type", fmt.Sprintf("%s protected record of type %d", who, rec.Typ)
+			}
+		}
+		for _, m := range vfHSMessages(d.hs) {
+			if m.Typ == hsFinished {
+				d.fin = m.Raw
 			}
 		}
 		if d.fin == nil {
